@@ -169,6 +169,9 @@ func run() {
 		if ev == "serve.stdio.swapped" && len(pc.StdioScript) > 0 {
 			vp.RunStdioScript(pc.StdioScript)
 		}
+		if pc.HoldEvent == ev && pc.HoldMs > 0 {
+			time.Sleep(time.Duration(pc.HoldMs) * time.Millisecond)
+		}
 		if pc.Crash != nil && pc.Crash.Event == ev {
 			logMu.Lock()
 			counts[ev]++
